@@ -4,6 +4,8 @@ package core2
 
 import (
 	"fmt"
+	"os"
+	"path/filepath"
 	"runtime"
 	"strings"
 	"sync"
@@ -30,12 +32,24 @@ import (
 // interleavings (e.g. Shutdown while Leave waits) are pinned.  State() is
 // sampled continuously; all observations go through one mutex, so their order
 // is a real-time order.
+//
+// Configuration and call variants that must not matter: a snapshot file
+// (Leave and Shutdown then also talk to the snapshotter), Join with
+// ignoreOld, Join with no or two targets.  After the program the harness adds
+// a sequential epilogue on the state reached: a further Leave on a node that
+// has left (nil, still left, member clock and intent queue untouched: "without
+// effect"), a further Shutdown on a node that is shut down (nil, still
+// shut down), and a Join, which must be refused without contacting anybody.
 
 type c34Call struct {
 	Kind    int `json:"k"`     // 0 Join, 1 Leave, 2 Shutdown
 	Trigger int `json:"t"`     // 0 start barrier, 1 State()>=leaving seen, 2 >=left seen, 3 shutdown seen, 4 after call After returned
 	After   int `json:"after"` // trigger 4: index of an earlier call (mod own index)
 	DelayUs int `json:"delay"` // extra delay after the trigger, microseconds
+	// Join only: ignoreOld argument, and the number of targets minus one
+	// (-1 = empty list, 0 = one target, 1 = two targets)
+	IgnoreOld bool `json:"ignore_old,omitempty"`
+	Targets   int  `json:"targets,omitempty"`
 }
 
 type c34Case struct {
@@ -43,6 +57,7 @@ type c34Case struct {
 	BroadcastMs int       `json:"broadcast_ms"`
 	PropagateMs int       `json:"propagate_ms"`
 	Calls       []c34Call `json:"calls"`
+	Snap        bool      `json:"snap,omitempty"` // the node keeps a snapshot file
 }
 
 func genC34(t *rapid.T) c34Case {
@@ -64,6 +79,10 @@ func genC34(t *rapid.T) c34Case {
 		if i > 0 {
 			call.After = rapid.IntRange(0, i-1).Draw(t, "after")
 		}
+		if call.Kind == 0 {
+			call.IgnoreOld = rapid.Bool().Draw(t, "ignore_old")
+			call.Targets = rapid.SampledFrom([]int{0, 0, 0, -1, 1}).Draw(t, "targets")
+		}
 		c.Calls = append(c.Calls, call)
 	}
 	// half of the programs start with the shape the property is about: a Leave at the barrier and a
@@ -79,6 +98,7 @@ func genC34(t *rapid.T) c34Case {
 			}
 		}
 	}
+	c.Snap = rapid.IntRange(0, 3).Draw(t, "snap") == 0
 	return c
 }
 
@@ -98,9 +118,22 @@ func bodyC34(c c34Case, x *vkit.Ctx) {
 	nw.Deliver = c.Peer == 2
 	bt := time.Duration(min(max(c.BroadcastMs, 1), 200)) * time.Millisecond
 	pd := time.Duration(min(max(c.PropagateMs, 0), 200)) * time.Millisecond
+	snapDir := ""
+	if c.Snap {
+		var err error
+		if snapDir, err = os.MkdirTemp("", "c34-snap-"); err != nil {
+			x.Inconclusive("no temp dir: " + err.Error())
+			return
+		}
+		defer os.RemoveAll(snapDir)
+		x.Label("with-snapshot-file")
+	}
 	mutate := func(conf *serf.Config) {
 		conf.BroadcastTimeout = bt
 		conf.LeavePropagateDelay = pd
+		if snapDir != "" {
+			conf.SnapshotPath = filepath.Join(snapDir, "snapshot")
+		}
 	}
 	n := mkNode(x, nw, node.Opts{Name: "c34-self", Quiet: true, Mutate: mutate})
 	if n == nil {
@@ -186,6 +219,15 @@ func bodyC34(c c34Case, x *vkit.Ctx) {
 		}
 	}()
 	joinTarget := func(i int) string { return fmt.Sprintf("127.0.77.%d:7946", i+1) }
+	joinTargets := func(i int, call c34Call) []string {
+		switch {
+		case call.Targets < 0:
+			return []string{}
+		case call.Targets > 0:
+			return []string{joinTarget(i), joinTarget(i + 100)}
+		}
+		return []string{joinTarget(i)}
+	}
 
 	var wg sync.WaitGroup
 	for i, call := range c.Calls {
@@ -228,8 +270,7 @@ func bodyC34(c c34Case, x *vkit.Ctx) {
 				defer func() { r.panicked = recover() }() // the call runs in this goroutine: a panic here is an observation, not a crash
 				switch call.Kind {
 				case 0:
-					targets := []string{joinTarget(i)}
-					r.n, r.err = n.Serf.Join(targets, false)
+					r.n, r.err = n.Serf.Join(joinTargets(i, call), call.IgnoreOld)
 				case 1:
 					r.err = n.Serf.Leave()
 				default:
@@ -285,6 +326,42 @@ func bodyC34(c c34Case, x *vkit.Ctx) {
 	<-samplerDone
 	dials := nw.Dials()
 
+	// ---- sequential epilogue on the state the program ended in
+	type epi struct {
+		what       string
+		err        error
+		panicked   any
+		post       serf.SerfState
+		clockMoved bool
+		queueGrew  int
+		dialed     int
+	}
+	var epilogue []epi
+	runEpi := func(what string, f func() error) {
+		e := epi{what: what}
+		clk0, _, _ := n.Serf.VerifClocks()
+		q0, _, _ := n.Serf.VerifQueued()
+		func() {
+			defer func() { e.panicked = recover() }()
+			e.err = f()
+		}()
+		clk1, _, _ := n.Serf.VerifClocks()
+		q1, _, _ := n.Serf.VerifQueued()
+		e.clockMoved = clk1 != clk0
+		e.queueGrew = len(newEntries(q0, q1))
+		e.dialed = len(nw.Dials())
+		e.post = observe()
+		epilogue = append(epilogue, e)
+	}
+	switch final := observe(); final {
+	case serf.SerfLeft:
+		runEpi("Leave", func() error { return n.Serf.Leave() })
+		runEpi("Join", func() error { _, err := n.Serf.Join([]string{"127.0.78.1:7946"}, false); return err })
+	case serf.SerfShutdown:
+		runEpi("Shutdown", func() error { return n.Serf.Shutdown() })
+		runEpi("Join", func() error { _, err := n.Serf.Join([]string{"127.0.78.1:7946"}, true); return err })
+	}
+
 	// ---- oracle
 	kindName := []string{"Join", "Leave", "Shutdown"}
 	describe := func() string {
@@ -315,6 +392,35 @@ func bodyC34(c c34Case, x *vkit.Ctx) {
 			return
 		}
 	}
+	for _, e := range epilogue {
+		x.Label("epilogue:" + e.what + "-after-" + obsLog[len(obsLog)-1].String())
+		switch {
+		case e.panicked != nil:
+			x.Violationf("lifecycle-call-panics", "after the program (final state reached before: see calls) a further %s panicked: %v; calls: %s", e.what, e.panicked, describe())
+			return
+		case e.what == "Join" && e.err == nil:
+			x.Violationf("join-accepted-after-leave-or-shutdown", "after the program ended in state %v a Join returned no error; calls: %s", e.post, describe())
+			return
+		case e.what == "Join" && e.dialed > 0:
+			x.Violationf("join-contacts-peer-after-leave-or-shutdown", "after the program ended in state %v a Join was refused (%v) but still dialed %d address(es); calls: %s", e.post, e.err, e.dialed, describe())
+			return
+		case e.what == "Leave" && e.err != nil:
+			x.Violationf("leave-after-leave-fails", "after the program ended in state left a further Leave returned %v; calls: %s", e.err, describe())
+			return
+		case e.what == "Leave" && e.post != serf.SerfLeft:
+			x.Violationf("leave-after-leave-changes-state", "after the program ended in state left a further Leave left the state at %v; calls: %s", e.post, describe())
+			return
+		case e.what == "Leave" && (e.clockMoved || e.queueGrew > 0):
+			x.Violationf("leave-after-leave-has-effect", "after the program ended in state left a further Leave returned nil but was not without effect: member clock moved: %v, new entries in the intent queue: %d; calls: %s", e.clockMoved, e.queueGrew, describe())
+			return
+		case e.what == "Shutdown" && e.err != nil:
+			x.Violationf("repeated-shutdown-fails", "after the program ended in state shutdown a further Shutdown returned %v; calls: %s", e.err, describe())
+			return
+		case e.what == "Shutdown" && e.post != serf.SerfShutdown:
+			x.Violationf("not-shutdown-after-shutdown", "after the program ended in state shutdown a further Shutdown left the state at %v; calls: %s", e.post, describe())
+			return
+		}
+	}
 	var firstShutdownBegin int64 = 1 << 62
 	for i, call := range c.Calls {
 		if call.Kind%3 == 2 && res[i].started && res[i].begin < firstShutdownBegin {
@@ -340,9 +446,12 @@ func bodyC34(c c34Case, x *vkit.Ctx) {
 		case 0: // Join
 			dialed := false
 			for _, d := range dials {
-				if d.To == joinTarget(i) {
+				if d.To == joinTarget(i) || d.To == joinTarget(i+100) {
 					dialed = true
 				}
+			}
+			if call.IgnoreOld {
+				x.Label("join-ignore-old")
 			}
 			if r.pre != serf.SerfAlive {
 				x.Label("join-after-leave-or-shutdown")
@@ -358,6 +467,11 @@ func bodyC34(c c34Case, x *vkit.Ctx) {
 				x.Label("join-while-alive-dialed")
 			}
 		case 1: // Leave
+			// a Leave that reports success has left: the state read afterwards is left (or shutdown)
+			if r.err == nil && r.post != serf.SerfLeft && r.post != serf.SerfShutdown {
+				x.Violationf("leave-succeeds-without-leaving", "call %d: Leave returned nil but State() afterwards is %v; calls: %s", i, r.post, describe())
+				return
+			}
 			for j := range c.Calls {
 				p := res[j]
 				if j == i || c.Calls[j].Kind%3 != 1 || !p.started || p.err != nil || p.end >= r.begin {
